@@ -806,6 +806,22 @@ pub fn run(log: &mut Log, im: &mut Impl, op: &str) -> String {
     obs
 }
 
+/// The witness corpora `corpus/<prefix>*.txt` (histories behind refuted `_full` statements and model-vs-code audits that proof agents
+/// replayed by hand): executed first on every run so that the correspondence check keeps comparing them with the model.
+pub fn witness_corpus(prefixes: &[&str], log: &mut Log, im: &mut Impl, or: &mut Oracle) {
+    let dir = std::path::Path::new(env!("CARGO_MANIFEST_DIR")).join("../corpus");
+    let Ok(rd) = std::fs::read_dir(&dir) else { return };
+    let mut files: Vec<_> = rd.filter_map(|e| e.ok()).map(|e| e.path()).filter(|p| p.file_name().and_then(|n| n.to_str()).map_or(false, |n| n.ends_with(".txt") && prefixes.iter().any(|pre| n.starts_with(pre)))).collect();
+    files.sort();
+    for f in files {
+        let Ok(text) = std::fs::read_to_string(&f) else { continue };
+        for line in text.lines() {
+            if let Some(id) = line.strip_prefix("# case ") { log.case(&format!("witness-{id}")); }
+            else if !line.starts_with('#') && !line.trim().is_empty() { let o = run(log, im, line); if o == "panic" || o.starts_with("panic ") { or.count("witness_corpus_panics_observed"); } or.count("witness_corpus_ops"); }
+        }
+    }
+}
+
 /// Replay mode: re-execute an op block from a file, writing ops.txt / impl.txt.
 pub fn replay(ctx: &Ctx, path: &std::path::Path) {
     let text = std::fs::read_to_string(path).expect("replay file");
